@@ -90,7 +90,7 @@ def run(chk):
                 i = [k for k, v in enumerate(verdict) if v][0]
                 fails.append(("correspondence", "LSP.Sem vs converter", json.dumps({"case": cases[i], "meta": meta[i], "code": verdict[i], "impl_ok": real[i]["ok"]})[:1500]))
         else:
-            real = CS.real_run(cases)["results"] if cases else []
+            real = CS.real_results(cases) if cases else []
     chk.sample({"structure": meta[0][0], "property": meta[0][1], "edit": meta[0][2], "input": cases[0]["input"]} if cases else {})
     accepted = [(m, c) for m, c, r in zip(meta, cases, real) if r["ok"]]
     if accepted:
